@@ -48,7 +48,7 @@ Proof.
   assert (C : G = 0 \/ (Z.odd F = true \/ (0 < delta /\ Z.odd G = true))) by (unfold PRE in Hpre; tauto).
   destruct C as [HG0|Ho].
   { subst G. change (0 mod P62) with 0. rewrite jump_g0 by lia.
-    exists F, 0. rewrite Z.gcd_0_r. repeat split; try lia. right. reflexivity. }
+    exists F, 0. rewrite Z.gcd_0_r. repeat split; lia. }
   assert (Hpre' : Z.odd (F mod P62) = true \/ (0 < delta /\ Z.odd (G mod P62) = true)) by (rewrite !odd_mod_P62; exact Ho).
   assert (OG : Z.odd (Z.gcd F G) = true) by (apply odd_gcd; tauto).
   pose proof (jump_matrix _ _ delta Hf0 Hg0 Hpre' Hd) as JP. unfold JPost in JP.
@@ -83,8 +83,10 @@ Proof.
       replace (P62 * (t00 * G' - t10 * F')) with (t00 * (P62 * G') - t10 * (P62 * F')) by ring. rewrite <- X0, <- X1. ring. }
     apply Z.divide_antisym_nonneg; try apply Z.gcd_nonneg.
     - apply Z.gcd_greatest.
-      + rewrite IF at 2. apply Z.divide_sub_r; apply Z.divide_mul_r; [apply Z.gcd_divide_l | apply Z.gcd_divide_r].
-      + rewrite IG at 2. apply Z.divide_sub_r; apply Z.divide_mul_r; [apply Z.gcd_divide_r | apply Z.gcd_divide_l].
+      + assert (D1 : (Z.gcd F' G' | t11 * F' - t01 * G')) by (apply Z.divide_sub_r; apply Z.divide_mul_r; [apply Z.gcd_divide_l | apply Z.gcd_divide_r]).
+        rewrite <- IF in D1. exact D1.
+      + assert (D1 : (Z.gcd F' G' | t00 * G' - t10 * F')) by (apply Z.divide_sub_r; apply Z.divide_mul_r; [apply Z.gcd_divide_r | apply Z.gcd_divide_l]).
+        rewrite <- IG in D1. exact D1.
     - apply Z.gcd_greatest; apply (gauss_pow2 _ 62); try assumption; try lia; rewrite <- P62_pow.
       + rewrite <- X0. apply Z.divide_add_r; apply Z.divide_mul_r; [apply Z.gcd_divide_l | apply Z.gcd_divide_r].
       + rewrite <- X1. apply Z.divide_add_r; apply Z.divide_mul_r; [apply Z.gcd_divide_l | apply Z.gcd_divide_r]. }
